@@ -126,7 +126,10 @@ type grpClientState struct {
 	hbDrop     int
 	hbDone     chan struct{} // closed when the armed heartbeat verdict has been answered
 	onJoin     func()
+	onRejoin   func() // at a later JoinGroup of the call that carries an empty member id (rejoin after a fence)
 	onSync     func()
+	joinN      int  // JoinGroup requests of the current call
+	holdResp   bool // Close was called during this JoinGroup: its answer is held until Close had its chance to run
 }
 
 type grpSim struct {
@@ -156,6 +159,7 @@ type grpSim struct {
 	coord       int             // listener (broker id - 1) that currently is the group's coordinator
 	hbOK        int             // heartbeats answered OK (the watchdog's clock)
 	hbSeen      map[string]int  // heartbeat requests seen per client
+	closeRet    map[string]bool // Close of this client's group has returned
 	nretry      int             // refused coordinator lookups / initial OffsetFetches (a watchdog clock: a retry loop is spinning)
 	lookupFail  map[string]bool // coordinator lookups of this client are answered COORDINATOR_NOT_AVAILABLE
 	lookupLate  map[string]bool // ... from the moment its JoinGroup was answered NOT_COORDINATOR (scripted)
@@ -183,6 +187,7 @@ func newGrpSim(rec *vRec, sc *grpScenario) (*grpSim, error) {
 	s.expect = map[string]bool{}
 	s.failOff = map[string]int{}
 	s.hbSeen = map[string]int{}
+	s.closeRet = map[string]bool{}
 	s.lookupFail = map[string]bool{}
 	s.lookupLate = map[string]bool{}
 	s.lookupN = map[string]int{}
@@ -673,6 +678,21 @@ func (s *grpSim) removeMember(mid string, why string) {
 	s.cond.Broadcast()
 }
 
+// holdUntilCloseRan (s.mu held): Close was called while this JoinGroup is in flight. The answer - which issues the member id -
+// is held until Close has returned (it did not wait for the running Consume) or until Close had its chance to run: a
+// load-aware bound of 300 ms (Close is then blocked on the Consume lock and nothing more can happen before the answer).
+func (s *grpSim) holdUntilCloseRan(cl string) {
+	b := vNewBound(300 * time.Millisecond)
+	for !s.closeRet[cl] && !s.dead {
+		if expired, _ := b.state(); expired {
+			return
+		}
+		s.mu.Unlock()
+		time.Sleep(10 * time.Millisecond)
+		s.mu.Lock()
+	}
+}
+
 // touch restarts the member's session timer (enforced session timeout)
 func (s *grpSim) touch(mid string) {
 	if s.sc.SessTO > 0 {
@@ -763,8 +783,12 @@ func (s *grpSim) handleJoin(cl string, r *JoinGroupRequest) (encoderWithHeader, 
 		return nil, true
 	}
 	s.rec.Ev("join_req", kv{"c": cl, "mid": r.MemberId})
+	cs.joinN++
 	if f := cs.onJoin; f != nil {
 		cs.onJoin = nil
+		f()
+	} else if f := cs.onRejoin; f != nil && cs.joinN >= 2 && r.MemberId == "" {
+		cs.onRejoin = nil
 		f()
 	}
 	fail := func(kind string) (encoderWithHeader, bool) {
@@ -826,6 +850,10 @@ func (s *grpSim) handleJoin(cl string, r *JoinGroupRequest) (encoderWithHeader, 
 		if m.result != nil {
 			res := m.result
 			m.result = nil
+			if cs.holdResp {
+				cs.holdResp = false
+				s.holdUntilCloseRan(cl)
+			}
 			s.touch(res.MemberId)
 			s.rec.Ev("join_resp", kv{"c": cl, "err": "ok", "mid": res.MemberId, "gen": int(res.GenerationId)})
 			return res, false
@@ -1154,6 +1182,12 @@ func (s *grpSim) coordDown() {
 	s.lns[0].Close()
 }
 
+func (s *grpSim) noteCloseRet(cl string) {
+	s.mu.Lock()
+	s.closeRet[cl] = true
+	s.mu.Unlock()
+}
+
 func (s *grpSim) setNP(n int) {
 	s.mu.Lock()
 	s.np = n
@@ -1239,6 +1273,7 @@ func (c *grpClient) doClose() {
 			defer close(c.closeDone)
 			err := grpGuard(c, "Close", func() error { return c.g.Close() })
 			c.run.rec.Ev("close_ret", kv{"c": c.name, "err": grpErrStr(err)})
+			c.run.sim.noteCloseRet(c.name)
 		}()
 		// Close() first closes c.closed, then waits for the Consume lock
 		select {
@@ -1294,6 +1329,10 @@ func (c *grpClient) fireL(at string, sess ConsumerGroupSession, simLocked bool) 
 		c.cancel()
 	case "close":
 		c.doClose()
+		if at == "join" || at == "rejoin" {
+			// (simLocked) the answer of the JoinGroup in flight is held until Close had its chance to run
+			c.run.sim.clients[c.name].holdResp = true
+		}
 	case "nocoord_close", "nocoord_late_close":
 		// armed by the driver at the start of the call (no steering point is ever reached)
 	case "ofetch_fail", "ofetch_fail_conn", "ofetch_fail_close", "ofetch_fail_load", "ofetch_fail_load_close":
@@ -1595,6 +1634,9 @@ func (c *grpClient) drive() {
 			r.sim.failOff[c.name] = *ss.DF
 		}
 		nonet := r.sc.NoNet || (ss.DF != nil && *ss.DF >= 0)
+		cs.joinN = 0
+		cs.holdResp = false
+		cs.onRejoin = func() { c.fireL("rejoin", nil, true) }
 		cs.onJoin = func() { c.fireL("join", nil, true) }
 		cs.onSync = func() { c.fireL("sync", nil, true) }
 		r.sim.mu.Unlock()
